@@ -258,7 +258,8 @@ impl SubCheck for Sizes {
 						headers.push(("content-length".to_string(), claimed.to_string().into_bytes()));
 						obs.class("content-length-understates-the-body");
 					}
-					let req = HttpReq { method: "POST".into(), headers, frames, content_length: cl, uri: "/".into() };
+					let headers_len = frames.len();
+					let req = HttpReq { method: "POST".into(), headers, frames, content_length: cl, uri: "/".into(), trailers: !cl && headers_len % 2 == 1 };
 					let r = match case.entry {
 						EntryPoint::TowerService => fix.http(req).await,
 						EntryPoint::LowLevel => fix.http_lowlevel(req).await,
